@@ -438,3 +438,13 @@ m('c16-r2-in-place-close-dropped', 'C16', 'C16-R2', 'into_current_strain_peaks',
 m('c18-r5-closure-writes-other-slot', 'C18', 'C18-R5', 'hp', (
     'src/any/difficulty/mod.rs', "self.with(|this| this.hp = Some(hp))", "self.with(|this| this.cs = Some(hp))"),
   diff='selftest/refactor_diffs/C18-r15.diff')
+# seed C04-5 itself: TaikoPerformance keeps the accuracy in percent, the conversion from OsuPerformance still copies osu's fraction
+m('c07-r5-forwarded-field-other-unit', 'C07', 'C07-R5', 'taiko:acc:representation', diff='selftest/seed_diffs/C04-5.diff')
+# seed C10-5 itself: a StrainsVec kept in a field is asked len() by the call after the one that retained it
+m('c10-r6-len-after-retain-across-calls', 'C10', 'C10-R6', 'len-after-shrink', diff='selftest/seed_diffs/C10-5.diff')
+# seeds C05-5 / C15-5 themselves: nth()'s n >= len() branch jumps the position instead of draining (mania: to another collection's length; taiko: next() stops by a separate cursor)
+m('c15-r9-overshoot-jump-wrong-end', 'C15', 'C15-R9', 'mania:overshoot', diff='selftest/seed_diffs/C05-5.diff')
+m('c15-r9-overshoot-jump-leaves-cursor', 'C15', 'C15-R9', 'taiko:overshoot', diff='selftest/seed_diffs/C15-5.diff')
+
+# seed C02-5 itself (the same slip was written independently for C01-5, C03-5 and C14-5): a position-keyed helper asked with a step count in nth()
+m('c15-r10-position-helper-asked-with-steps', 'C15', 'C15-R10', 'taiko:combo_after', diff='selftest/seed_diffs/C02-5.diff')
